@@ -489,7 +489,7 @@ bool TMCG_SecretKey::decrypt
 		std::string kid;
 		if (!TMCG_ParseHelper::gs(s, '|', kid))
 			throw false;
-		if ((kid != keyid(keyid_size(kid))) || !TMCG_ParseHelper::nx(s, '|'))
+		if ((kid != keyid()) || !TMCG_ParseHelper::nx(s, '|'))
 			throw false;
 		
 		// vdata
